@@ -368,12 +368,12 @@ func valueSourceFamily() []vsCase {
 	producers := map[string][]string{
 		"[]": {"values(`{}`)", "keys(`{}`)", "items(`{}`)", "`[1]`[?`false`]", "`[[]]`[]", "to_array(`[]`)", "reverse(`[]`)", "sort(`[]`)", "map(&@, `[]`)", "`[1]`[1:]", "zip(`[]`)", "zip(`[]`, `[1]`)", "`[]`[*]", "`{}`.*", "not_null(`[]`)", "`[null]`[*]", "`[null, null]`[*]", "`[null]`[]", "`[null]`[?@]", "`{\"a\":null}`.*",
 			"`[1]`[:0]", "`[1]`[::-1][1:]", "[`[]`][0]", "`[[]]`[0]", "`[]`[]", "`[]`[?@]", "`[]`[:]", "`[]`[::-1]", "`[]`[::2]", "sort_by(`[]`, &@)", "`[1]`[*].a", "`[1]`[].a", "`{\"a\":1}`.*.b", "`[null]`[*][*]", "merge(`{}`).*", "`[[null]]`[0][*]", "map(&@, `[null]`)[*]", "`[{}]`[*].a", "`[[], []]`[]"},
-		"{}": {"merge(`{}`, `{}`)", "from_items(`[]`)", "`[{}]`[0]", "{k: `{}`}.k", "merge(`{}`)", "not_null(`{}`)", "`[{}]`[*] | [0]", "merge(`{}`, `{}`, `{}`)", "from_items(items(`{}`))", "from_items(zip(`[]`, `[]`))"},
-		`""`: {"''", "join('', `[]`)", "lower('')", "trim(' ')", "'abc'[1:1]", "to_string('')", "replace('a', 'a', '')", "pad_left('', `0`)", "reverse('')", "trim_left(' ')", "trim_right(' ')", "'a'[5:]", "upper('')", "join(',', [''])", "'a'[:0]", "'ab'[::-1][2:]", "pad_right('', `0`, 'x')", "replace('', 'a', 'b')", "trim('x', 'x')", "join('', ['', ''])", "split('a', 'a')[0]", "split('a', 'a')[1]"},
-		"0": {"length('')", "length(`[]`)", "sum(`[]`)", "`1` - `1`", "abs(`0`)", "to_number('0')", "ceil(`0`)", "floor(`0.5`)", "find_first('a', 'a')", "`0` * `5`", "`2` % `2`", "`0` // `1`", "length(`{}`)", "avg(`[0]`)", "min(`[0, 1]`)", "max(`[0, -1]`)", "sum(`[1, -1]`)", "find_last('a', 'a')", "`0` / `5`", "to_number(`0`)"},
-		"null": {"a", "`[]`[0]", "not_null(`null`)", "`{}`.a", "to_number('x')", "max(`[]`)", "min(`[]`)", "`1` < 'a'", "find_first('a', 'b')", "''.a", "`1`[0]", "`1`.a", "'a'[*]", "`{}`[*]", "`1`.*", "`1`[]", "to_number(`true`)", "avg(`[]`)", "max_by(`[]`, &@)", "`[1]`[5]", "`[1]`[-5]", "`null`.a.b", "`true` && `null`", "`null` && `true`", "`false` || `null`", "not_null(`null`, `null`)", "`{\"a\":null}`.a", "to_number('')", "to_number(' 1')", "to_number('1 ')", "`\"a\"`[0]"},
+		"{}":    {"merge(`{}`, `{}`)", "from_items(`[]`)", "`[{}]`[0]", "{k: `{}`}.k", "merge(`{}`)", "not_null(`{}`)", "`[{}]`[*] | [0]", "merge(`{}`, `{}`, `{}`)", "from_items(items(`{}`))", "from_items(zip(`[]`, `[]`))"},
+		`""`:    {"''", "join('', `[]`)", "lower('')", "trim(' ')", "'abc'[1:1]", "to_string('')", "replace('a', 'a', '')", "pad_left('', `0`)", "reverse('')", "trim_left(' ')", "trim_right(' ')", "'a'[5:]", "upper('')", "join(',', [''])", "'a'[:0]", "'ab'[::-1][2:]", "pad_right('', `0`, 'x')", "replace('', 'a', 'b')", "trim('x', 'x')", "join('', ['', ''])", "split('a', 'a')[0]", "split('a', 'a')[1]"},
+		"0":     {"length('')", "length(`[]`)", "sum(`[]`)", "`1` - `1`", "abs(`0`)", "to_number('0')", "ceil(`0`)", "floor(`0.5`)", "find_first('a', 'a')", "`0` * `5`", "`2` % `2`", "`0` // `1`", "length(`{}`)", "avg(`[0]`)", "min(`[0, 1]`)", "max(`[0, -1]`)", "sum(`[1, -1]`)", "find_last('a', 'a')", "`0` / `5`", "to_number(`0`)"},
+		"null":  {"a", "`[]`[0]", "not_null(`null`)", "`{}`.a", "to_number('x')", "max(`[]`)", "min(`[]`)", "`1` < 'a'", "find_first('a', 'b')", "''.a", "`1`[0]", "`1`.a", "'a'[*]", "`{}`[*]", "`1`.*", "`1`[]", "to_number(`true`)", "avg(`[]`)", "max_by(`[]`, &@)", "`[1]`[5]", "`[1]`[-5]", "`null`.a.b", "`true` && `null`", "`null` && `true`", "`false` || `null`", "not_null(`null`, `null`)", "`{\"a\":null}`.a", "to_number('')", "to_number(' 1')", "to_number('1 ')", "`\"a\"`[0]"},
 		"false": {"`1` == `2`", "!`1`", "contains(`[]`, `1`)", "starts_with('a', 'b')", "ends_with('a', 'b')", "`1` != `1`", "`1` > `2`", "!'a'", "!`[0]`", "!`{\"a\":1}`", "`[]` == `{}`", "'' == `null`", "`0` == `false`", "`1` == '1'", "contains('a', 'b')", "contains('1', `1`)", "!`0`", "!`true`", "`false` && `true`", "`null` == `false`", "`[]` == `[null]`"},
-		"true": {"`1` == `1`", "!`null`", "!''", "!`[]`", "!`{}`", "contains('a', 'a')", "`1` < `2`", "`1.0` == `1`", "`[]` == `[]`", "`{}` == `{}`", "!`false`", "starts_with('a', '')", "contains(`[null]`, `null`)", "`null` == `null`", "`1` != `2`", "`\"\"` == ''", "`1e0` == `1`", "`[1, 2]` != `[2, 1]`", "`{\"a\": 1, \"b\": 2}` == `{\"b\": 2, \"a\": 1}`", "contains('', '')", "ends_with('a', '')"},
+		"true":  {"`1` == `1`", "!`null`", "!''", "!`[]`", "!`{}`", "contains('a', 'a')", "`1` < `2`", "`1.0` == `1`", "`[]` == `[]`", "`{}` == `{}`", "!`false`", "starts_with('a', '')", "contains(`[null]`, `null`)", "`null` == `null`", "`1` != `2`", "`\"\"` == ''", "`1e0` == `1`", "`[1, 2]` != `[2, 1]`", "`{\"a\": 1, \"b\": 2}` == `{\"b\": 2, \"a\": 1}`", "contains('', '')", "ends_with('a', '')"},
 	}
 	for _, j := range []string{"[]", "{}", `""`, "0", "null", "false", "true"} {
 		add(j, "`"+j+"`", zdoc)
